@@ -141,6 +141,8 @@ class PerceptionEvaluationConfig(_EvaluationConfigBase):
         min_distance: Optional[float] = e_cfg.get("min_distance")
 
         num_elements: int = len(target_labels)
+        if None not in (max_x_position, max_y_position, max_distance, min_distance):
+            raise RuntimeError("Either max x/y position or max/min distance should be specified")
         if None not in (max_x_position, max_y_position):
             max_x_position_list: List[float] = set_thresholds(max_x_position, num_elements, False)
             max_y_position_list: List[float] = set_thresholds(max_y_position, num_elements, False)
